@@ -4,8 +4,13 @@ one workspace per case and records the job index after each run.
 stdin : {"scratch": dir, "cases": [case, ...]}
 stdout: last line = JSON list, one result per case.
 
+every case may carry "name" (experiment name, default "e"; a name the implementation refuses at construction is logged
+"refused") and "layout": "plain" | "jobs-link" (<workspace>/jobs is a symbolic link to a directory elsewhere) |
+"task-link" (<workspace>/jobs/<task> is one) | "ws-link" (the workspace is given through a symbolic link)
+
 case kind "hist": {"kind": "hist", "runs": [run, ...]}
   run = {"mk": [x..], "rm": [x..],           job directories created (with success marker) / deleted first
+         "mode": "normal" | "generate" | "dry",   run mode of the experiment (RunMode.NORMAL / GENERATE_ONLY / DRY_RUN)
          "jobs": [x..],                      jobs the block submits, in order
          "end": "ok" | "exc" | "kill_in" | "kill_locked" | "kill_moving" | "kill_exit" | "kill_wait" | "fail_wait",
                                              kill_wait: dies when wait() is called; fail_wait: wait() waits, then raises
@@ -19,7 +24,16 @@ case kind "hist": {"kind": "hist", "runs": [run, ...]}
                                              (a BaseException that is not an Exception) before "raise"
          "k": n,                             exc/kill_in: submits done before; kill_moving/kill_exit: fs ops done before
          "sync": bool,                       wait until the links of the submitted jobs exist before going on
-         "sig": bool}                        die by SIGKILL instead of os._exit
+         "sig": bool,                        die by SIGKILL instead of os._exit
+         "flaky": bool}                      after the submits: a job that really runs is submitted and fails (its flag file
+                                             is missing), the flag is created, the same job is submitted again and succeeds
+                                             (logged "sub 7", "flaky-failed", "sub 7", "flaky-done")
+case kind "reenter": {"kind": "reenter", "pre": [run..], "mk": [x..], "reuse": bool, "blocks": [{"jobs": [x..], "how": "ok"|"exc",
+                      "exc": kind}..]}   one process runs the blocks one after the other, with one experiment object
+                      entered again and again (reuse) or a new object each time; result in the format of "hist"
+case kind "nested": {"kind": "nested", "pre": [run..], "mk": [x..], "a": [x..], "inner": [x..], "b": [x..], "wait": s}
+                      A inside; A's process enters the same experiment again inside its block (a new object; the
+                      implementation may refuse), leaves it; then a second process B tries to enter while A is still inside
 case kind "excl": {"kind": "excl", "pre": [run..], "p1": [x..], "leave": "ok"|"exc"|"kill", "exc": kind, "p2": [x..], "wait": s}
 case kind "excl3": {"kind": "excl3", "pre": [run..], "a": [x..], "b": [x..], "c": [x..], "leave": "ok"|"exc", "exc": kind,
                     "third": "new"|"relaunch", "mk": [x..], "wait": s}   lock hand-over A -> B while C contends
@@ -42,11 +56,13 @@ logging.disable(logging.CRITICAL)
 
 from click.testing import CliRunner  # noqa: E402
 from experimaestro import experiment, RunMode  # noqa: E402
+MODES = dict(normal=RunMode.NORMAL, generate=RunMode.GENERATE_ONLY, dry=RunMode.DRY_RUN)
 from experimaestro.cli import cli  # noqa: E402
-from vpk_c16 import IndexedJob  # noqa: E402
+from vpk_c16 import IndexedJob, FlakyJob  # noqa: E402
 
 NAME = "e"
 NJOBS = 8
+FLAKY = 7        # job number of FlakyJob(x=7), the one job of the harness that really runs
 REAL = dict(mkdir=os.mkdir, rename=os.rename, unlink=os.unlink, rmdir=os.rmdir)
 
 
@@ -165,7 +181,7 @@ def calibrate(scratch):
             ws = Path(scratch) / "calib"
             with experiment(ws, "calib", port=-1, run_mode=RunMode.DRY_RUN):
                 for x in range(NJOBS):
-                    t = IndexedJob(x=x)
+                    t = FlakyJob(x=x) if x == FLAKY else IndexedJob(x=x)
                     t.submit(run_mode=RunMode.DRY_RUN)
                     job = t.__xpm__.job
                     table[x] = [str(job.relpath), str(job.donepath.relative_to(job.path))]
@@ -189,6 +205,9 @@ def canon_links(ws, d, rel2x):
     if not d.is_dir():
         return None
     out = []
+    # a link must lead to *the directory* <workspace>/jobs/<relpath>, however it is spelled (the workspace, jobs/ or
+    # jobs/<task> may be symbolic links themselves)
+    real2x = {os.path.realpath(ws / "jobs" / rel): x for rel, x in rel2x.items()}
     jobsroot = os.path.realpath(ws / "jobs")
     for p in d.glob("*/*"):
         if not p.is_symlink():
@@ -201,9 +220,11 @@ def canon_links(ws, d, rel2x):
             continue
         if not os.path.isabs(target):
             target = os.path.join(os.path.dirname(p), target)
-        target = os.path.normpath(target)
-        if target.startswith(jobsroot + os.sep):
-            tx = rel2x.get(os.path.relpath(target, jobsroot), -1)
+        target = os.path.realpath(target)
+        if target in real2x:
+            tx = real2x[target]
+        elif target.startswith(jobsroot + os.sep):
+            tx = -1
         else:
             tx = -2
         out.append([name, tx])
@@ -252,8 +273,10 @@ class Hooks:
     """Kill injection at filesystem operations (wrappers around os.mkdir/rename/unlink/rmdir)."""
 
     def __init__(self, ws, log, die):
-        self.jobs = str(ws / "xp" / NAME / "jobs") + os.sep
-        self.bak = str(ws / "xp" / NAME / "jobs.bak")
+        xpd = ws / "xp" / NAME
+        self.jobs = tuple({str(xpd / "jobs") + os.sep, os.path.realpath(xpd / "jobs") + os.sep})
+        self.bak = str(xpd / "jobs.bak")
+        self.baks = tuple({self.bak, os.path.realpath(xpd / "jobs.bak")})
         self.log, self.die = log, die
         self.phase = "enter"
         self.kill_locked = False
@@ -269,7 +292,7 @@ class Hooks:
         os.rmdir = self.rmdir
 
     def mkdir(self, path, *a, **kw):
-        if self.phase == "enter" and os.fspath(path) == self.bak:
+        if self.phase == "enter" and os.fspath(path) in self.baks:
             if self.kill_locked:
                 self.log("kill locked")
                 self.die()
@@ -284,7 +307,7 @@ class Hooks:
             self.n_enter += 1
 
     def _exit_op(self, path, kw):
-        if self.phase == "exit" and (kw.get("dir_fd") is not None or os.fspath(path).startswith(self.bak)):
+        if self.phase == "exit" and (kw.get("dir_fd") is not None or os.fspath(path).startswith(self.baks)):
             if self.kill_exit is not None and self.n_exit == self.kill_exit:
                 self.log(f"kill exit {self.n_exit}")
                 self.die()
@@ -302,6 +325,26 @@ class Hooks:
     def rmdir(self, path, *a, **kw):
         self._exit_op(path, kw)
         return REAL["rmdir"](path, *a, **kw)
+
+
+def flaky_resubmit(ws, xp, log, tag=""):
+    """Inside a block: a job fails, then the same job is submitted again and succeeds."""
+    flag = str(ws / "c16-flag")
+    if os.path.exists(flag):
+        os.unlink(flag)
+    xp.workspace.launcher.setenv("PYTHONPATH", os.environ.get("PYTHONPATH", ""))
+    xp.workspace.launcher.setenv("C16_FLAG", flag)
+    t = FlakyJob(x=FLAKY)
+    t.submit()
+    log(f"{tag}sub {FLAKY}")
+    st = t.__xpm__.job.wait()
+    log(f"{tag}flaky-failed" if "ERROR" in str(st).upper() else f"{tag}flaky-first-{st}")
+    open(flag, "w").close()
+    t = FlakyJob(x=FLAKY)
+    t.submit()
+    log(f"{tag}sub {FLAKY}")
+    st = t.__xpm__.job.wait()
+    log(f"{tag}flaky-done" if "DONE" in str(st).upper() else f"{tag}flaky-second-{st}")
 
 
 def wait_links(ws, table, xs, timeout=10.0):
@@ -333,9 +376,15 @@ def child_run(ws, table, run, logfd, ctl=None):
     hooks.kill_exit = k if end == "kill_exit" else None
     hooks.install()
 
+    mode = run.get("mode", "normal")
+
     def enter():
         log("try")
-        return experiment(ws, NAME, port=-1)
+        try:
+            return experiment(ws, NAME, port=-1, run_mode=MODES[mode])
+        except ValueError as e:       # the implementation refuses this experiment (e.g. its name)
+            log(f"refused {e}"[:200])
+            os._exit(0)
 
     def body(xp):
         hooks.phase = "in"
@@ -352,7 +401,10 @@ def child_run(ws, table, run, logfd, ctl=None):
             IndexedJob(x=x).submit()
             submitted.append(x)
             log(f"sub {x}")
-        if run.get("sync"):
+        if run.get("flaky") and mode == "normal":
+            flaky_resubmit(ws, xp, log)
+            submitted.append(FLAKY)
+        if run.get("sync") and mode == "normal":
             log("synced" if wait_links(ws, table, submitted) else "sync-timeout")
         if run.get("hold") is not None:
             log("holding")
@@ -533,6 +585,7 @@ def child_actor(ws, table, logfd, cmdfd):
     said; {"op": "quit"} ends the process."""
     quiet()
     cmds = os.fdopen(cmdfd, "r")
+    kept = {}
 
     def log(msg):
         os.write(logfd, (msg + "\n").encode())
@@ -550,6 +603,10 @@ def child_actor(ws, table, logfd, cmdfd):
 
             def enter():
                 log(f"{tag} try")
+                if cmd.get("reuse"):          # the same experiment object is entered again
+                    if "xp" not in kept:
+                        kept["xp"] = experiment(ws, NAME, port=-1)
+                    return kept["xp"]
                 return experiment(ws, NAME, port=-1)
 
             def body(xp):
@@ -561,7 +618,24 @@ def child_actor(ws, table, logfd, cmdfd):
                     log(f"{tag} sub {x}")
                 log(f"{tag} synced" if wait_links(ws, table, subs) else f"{tag} sync-timeout")
                 log(f"{tag} holding")
-                cmds.readline()             # leaves (as the run command said) when told to
+                while True:                 # leaves (as the run command said) when told to
+                    line = cmds.readline()
+                    nxt = json.loads(line) if line else {}
+                    if nxt.get("op") != "nested":
+                        break
+                    # the same experiment entered again, by this process, inside the block
+                    try:
+                        log(f"{tag} nested-try")
+                        with experiment(ws, NAME, port=-1):
+                            log(f"{tag} nested-entered")
+                            for x in nxt["jobs"]:
+                                IndexedJob(x=x).submit()
+                                log(f"{tag} nested-sub {x}")
+                            wait_links(ws, table, nxt["jobs"], timeout=3.0)
+                        log(f"{tag} nested-exited")
+                    except BaseException as e:  # noqa
+                        log(f"{tag} nested-raised {type(e).__name__}")
+                    log(f"{tag} nested-done")
                 return ("exc", kind) if how == "exc" else ("ok", "fall")
 
             run_block(enter, body, log, tag=tag + " ", genexit=(how == "exc" and kind == "genexit"))
@@ -592,6 +666,16 @@ class Actor:
 
     def wait(self, line, timeout):
         return wait_line(self.fd, self.buf, line, timeout)
+
+    def wait_end(self, tag, timeout, also=None):
+        """Until the block `tag` is over (left normally, by its exception, or the context raised) or line `also` shows."""
+        t0 = time.time()
+        while time.time() - t0 < timeout:
+            for l in self.buf["lines"]:
+                if l in (f"{tag} exited", f"{tag} exc-out", also) or l.startswith(f"{tag} error"):
+                    return True
+            wait_line(self.fd, self.buf, "\0", 0.05)
+        return False
 
     def finish(self):
         self.send(op="quit")
@@ -663,6 +747,68 @@ def do_excl3(ws, table, rel2x, case):
     return out
 
 
+def do_reenter(ws, table, rel2x, case):
+    """One process, several blocks one after the other; result in the format of a "hist" case."""
+    runs = [do_run(ws, table, rel2x, run) for run in case.get("pre", [])]
+    for x in case.get("mk", []):
+        mk_jobdir(ws, table, x)
+    a = Actor(ws, table)
+    tags = []
+    for i, b in enumerate(case["blocks"]):
+        tag = f"B{i}"
+        tags.append(tag)
+        a.send(op="run", tag=tag, jobs=b["jobs"], how=b.get("how", "ok"), exc=b.get("exc", "error"), reuse=case.get("reuse", True))
+        a.wait_end(tag, 30, also=f"{tag} holding")
+        a.send(op="leave")
+        a.wait_end(tag, 30)
+        runs.append(dict(log=None, status="exit0", snap=snapshot(ws, rel2x)))
+    log, timed_out = a.finish()
+    n = len(case.get("pre", []))
+    for i, tag in enumerate(tags):
+        runs[n + i]["log"] = [l[len(tag) + 1:] for l in log if l.startswith(tag + " ")]
+        if timed_out:
+            runs[n + i]["status"] = "timeout"
+    return dict(runs=runs)
+
+
+def do_nested(ws, table, rel2x, case):
+    out = dict(pre=[do_run(ws, table, rel2x, run) for run in case.get("pre", [])])
+    for x in case.get("mk", []):
+        mk_jobdir(ws, table, x)
+    win = case.get("wait", 0.4)
+    t0 = time.time()
+    a = Actor(ws, table)
+    a.send(op="run", tag="A", jobs=case["a"], how="ok")
+    a.wait("A entered", 30)
+    t_enter = time.time() - t0
+    out["a_in"] = a.wait("A holding", 30)
+    out["s_a"] = snapshot(ws, rel2x)
+    a.send(op="nested", jobs=case["inner"])
+    out["n_done"] = a.wait("A nested-done", 30)
+    out["s_n"] = snapshot(ws, rel2x)
+    b = Actor(ws, table)
+    b.send(op="run", tag="B", jobs=case["b"], how="ok")
+    out["b_trying"] = b.wait("B try", 10)
+    out["b_early"] = b.wait("B entered", max(win, 3 * t_enter))
+    out["s_bwait"] = snapshot(ws, rel2x)
+    a.send(op="leave")
+    out["a_left"] = a.wait("A exited", 30)
+    out["s_aleft"] = snapshot(ws, rel2x) if not out["b_early"] else None
+    out["b_after"] = b.wait("B entered", 30)
+    out["b_holding"] = b.wait("B holding", 30)
+    out["s_b"] = snapshot(ws, rel2x)
+    b.send(op="leave")
+    out["b_left"] = b.wait("B exited", 30)
+    out["s_end"] = snapshot(ws, rel2x)
+    logs, tos = {}, []
+    for name, act in (("a", a), ("b", b)):
+        logs[name], to = act.finish()
+        tos.append(to)
+    out["logs"] = logs
+    out["timeouts"] = any(tos)
+    return out
+
+
 def main():
     payload = json.load(sys.stdin)
     scratch = Path(payload["scratch"])
@@ -670,20 +816,46 @@ def main():
     table = calibrate(scratch)
     rel2x = {v[0]: k for k, v in table.items()}
     results = []
+    global NAME
     for i, case in enumerate(payload["cases"]):
+        NAME = case.get("name", "e")
         ws = scratch / f"ws{i}"
-        if ws.exists():
-            shutil.rmtree(ws)
-        ws.mkdir(parents=True)
+        ext = scratch / f"ext{i}"
+        for d in (ws, ext):
+            if d.is_symlink():
+                d.unlink()
+            elif d.exists():
+                shutil.rmtree(d)
+        layout = case.get("layout", "plain")
+        if layout == "ws-link":               # the workspace is reached through a symbolic link
+            (ext / "ws").mkdir(parents=True)
+            os.symlink(ext / "ws", ws)
+        else:
+            ws.mkdir(parents=True)
+        if layout == "jobs-link":             # <workspace>/jobs lives elsewhere
+            (ext / "jobs").mkdir(parents=True)
+            os.symlink(ext / "jobs", ws / "jobs")
+        elif layout == "task-link":           # every <workspace>/jobs/<task> lives elsewhere
+            (ws / "jobs").mkdir()
+            for task in sorted({v[0].split("/")[0] for v in table.values()}):
+                (ext / task).mkdir(parents=True)
+                os.symlink(ext / task, ws / "jobs" / task)
         if case["kind"] == "hist":
             res = dict(runs=[do_run(ws, table, rel2x, run) for run in case["runs"]])
         elif case["kind"] == "excl3":
             res = do_excl3(ws, table, rel2x, case)
+        elif case["kind"] == "reenter":
+            res = do_reenter(ws, table, rel2x, case)
+        elif case["kind"] == "nested":
+            res = do_nested(ws, table, rel2x, case)
         else:
             res = do_excl(ws, table, rel2x, case)
         results.append(res)
         if not os.environ.get("VERIF_KEEP"):
+            if ws.is_symlink():
+                ws.unlink()
             shutil.rmtree(ws, ignore_errors=True)
+            shutil.rmtree(ext, ignore_errors=True)
     print(json.dumps(results))
 
 
